@@ -408,10 +408,8 @@ def well_defined_cast(draw, src_code, aj):
                     continue
             cands.append(c)
         else:
-            if tgt.kind in 'iu':
-                info = np.iinfo(tgt)
-                if arr.size and (int(arr.min()) < info.min or int(arr.max()) > info.max):
-                    continue
+            # integer -> integer outside the target's range wraps (numpy keeps the low-order bits: deterministic, and
+            # it is the cast the channel declares), so such casts are in the domain too
             cands.append(c)
     if not cands:
         return None
